@@ -454,6 +454,7 @@ func ruleC09(w *World, r *Report) {
 	ruleC09MeterArray(w, r)
 	ruleC09QciTable(w, r)
 	ruleNoSessionQerWithoutAll(w, r, "C09", "R09.11")
+	ruleAppQerIsFirst(w, r, "C09", "R09.12")
 }
 
 // symAtPathDeep resolves phis along the path recursively through arithmetic and calls.
